@@ -473,6 +473,14 @@ func (x *Exec) specCall(n *ast.CallExpr, env *specEnv, reach Term) Val {
 		case "mi":
 			v := x.evalSpec(n.Args[0], env, reach)
 			return Val{MI: true, L: []Term{x.toMI(v)}}
+		case "holds":
+			// holds(&m): the current call chain holds mutex m (ghost lock-set)
+			v := x.scalarize(x.evalSpec(n.Args[0], env, reach))
+			if len(v.L) != 1 {
+				specFail("holds(): argument must be the address of a mutex")
+			}
+			id := x.lockID(v)
+			return boolV(Select(env.st.held, id))
 		case "untainted":
 			// untainted(e...): none of the values depends on a secret source (syntactic
 			// dependency check over the terms, see taint.go)
